@@ -87,11 +87,20 @@ class ImplRun:
         self.unique = {}       # cid -> unique name (learnt from the Hello reply)
         self.bserial = BARRIER0
         self.monitors = set()
+        self.dirty = set()     # cids that wrote raw bytes: no barrier is sent on them any more
+        self.pre = {}          # hostile sockets that never authenticate
+        self.stall = None
+        self.max_latency = 0.0
         self.reply_timeout = (limits or {}).get("reply_timeout")
 
     def stop(self):
         for c in self.c.values():
             c.close()
+        for sk in self.pre.values():
+            try:
+                sk.close()
+            except OSError:
+                pass
         return self.d.stop()
 
     def _connect(self, cid, uid, fdpass):
@@ -127,6 +136,7 @@ class ImplRun:
             if raw is not None:
                 m = wiregen.parse_message(raw)
                 if m.mtype in (2, 3) and m.get(5) == s:
+                    self.max_latency = max(self.max_latency, time.time() - t0)
                     return True
                 if (m.mtype in (2, 3) and BARRIER0 < (m.get(5) or 0) < BARRIER0 + 0x100000) or \
                         (m.mtype == 1 and BARRIER0 < m.serial < BARRIER0 + 0x100000):
@@ -137,7 +147,7 @@ class ImplRun:
                 return False
             left = timeout - (time.time() - t0)
             if left <= 0:
-                raise InfraError("barrier timed out on connection %d; daemon stderr: %s" % (cid, self.d.stderr()[-1500:]))
+                raise DaemonStalled("connection %d got no answer from the bus within %.0f s; daemon stderr: %s" % (cid, timeout, self.d.stderr()[-1500:]))
             cl._fill(left)
 
     def _ctl_sync(self, n=2):
@@ -154,6 +164,26 @@ class ImplRun:
             msgs = ctl.recv_until(lambda m: m.mtype in (2, 3) and m.get(5) == s, 10.0)
             if not msgs or msgs[-1] is None:
                 return
+
+    def _is_gone(self, cid):
+        """has the bus dropped `cid`? (by unique name when it has one, else by end-of-file on its socket)"""
+        name = self.unique.get(cid)
+        ctl = self.c.get(0)
+        cl = self.c[cid]
+        if name is None or ctl is None or 0 in self.closed:
+            t0 = time.time()
+            while time.time() - t0 < 0.15 and not cl.eof:
+                cl._fill(0.03)
+            return cl.eof
+        self.bserial += 1
+        s = self.bserial
+        ctl.send(bus.method_call(s, bus.BUS, bus.BUS_PATH, bus.BUS, "NameHasOwner", "s", [name.encode()]))
+        msgs = ctl.recv_until(lambda m: m.mtype in (2, 3) and m.get(5) == s, 10.0)
+        if not msgs or msgs[-1] is None:
+            raise DaemonStalled("the control connection got no answer to NameHasOwner")
+        if len(msgs) > 1:
+            self.ctl_extra = getattr(self, "ctl_extra", []) + [m for m in msgs[:-1]]
+        return msgs[-1].mtype == 2 and msgs[-1].body[0] == 0
 
     def _wait_gone(self, cid):
         """wait until the daemon has finished the disconnect of `cid`"""
@@ -193,6 +223,29 @@ class ImplRun:
             actor = op[1]
             if actor in self.c and actor not in self.closed:
                 self.c[actor].send_raw(op[2], op[3] if len(op) > 3 else ())
+        elif op[0] == "raw":
+            if op[1] in self.c and op[1] not in self.closed:
+                self.c[op[1]].send_raw(op[2])
+                if len(op) > 3 and op[3] and op[1] not in self.dirty:
+                    actor = op[1]      # whole valid messages: the stream is at a message boundary, the barrier may follow
+                else:
+                    self.dirty.add(op[1])
+        elif op[0] == "preauth":
+            import socket as _s
+            k, data, close = op[1], op[2], op[3]
+            sk = self.pre.get(k)
+            try:
+                if sk is None:
+                    sk = _s.socket(_s.AF_UNIX, _s.SOCK_STREAM); sk.settimeout(2); sk.connect(self.d.path); self.pre[k] = sk
+                sk.sendall(data)
+            except OSError:
+                pass
+            if close:
+                try:
+                    sk.close()
+                except OSError:
+                    pass
+                self.pre.pop(k, None)
         elif op[0] == "sleep":
             time.sleep((self.reply_timeout or 0) * 1.3 / 1000.0 + 0.05)
         elif op[0] == "close":
@@ -203,6 +256,27 @@ class ImplRun:
                 self._wait_gone(op[1])
         def settle(cid):
             if cid in self.closed or cid not in self.c:
+                return
+            if cid in self.dirty:
+                # a connection that has written raw bytes may be in the middle of a message: it is not
+                # written to again; whether the bus has dropped it is asked of the bus
+                cl = self.c[cid]
+                gone = self._is_gone(cid)
+                cl._fill(0.0) if not cl.eof else None
+                while True:
+                    raw = self._pop_raw(cl)
+                    if raw is None:
+                        break
+                    try:
+                        m = wiregen.parse_message(raw)
+                        if (m.mtype in (2, 3) and BARRIER0 < (m.get(5) or 0) < BARRIER0 + 0x100000) or \
+                                (m.mtype == 1 and BARRIER0 < m.serial < BARRIER0 + 0x100000):
+                            continue      # the harness's own barrier traffic, seen through an eavesdropping rule
+                    except Exception:
+                        pass
+                    got[cid].append(raw)
+                if gone:
+                    cl.close(); self.closed.add(cid); newly.add(cid)
                 return
             if not self._barrier(cid, got[cid]):
                 # drain what is left, then account for the closure
@@ -234,6 +308,10 @@ class ImplRun:
 
 
 class DaemonDied(Exception):
+    pass
+
+
+class DaemonStalled(Exception):
     pass
 
 
@@ -298,7 +376,14 @@ def parse_model_outs(ans):
 
 def op_lines(ops):
     lines = []
+    dirty = set()
     for op in ops:
+        if op[0] == "raw" and not (len(op) > 3 and op[3] and op[1] not in dirty):
+            dirty.add(op[1])
+        if op[0] == "send" and op[1] in dirty:
+            # the connection's stream may be in the middle of a message: these bytes continue it
+            lines.append("bus raw %d %s" % (op[1], op[2].hex()))
+            continue
         if op[0] == "connect":
             g = gids_of(op[2])
             lines.append("bus connect %d %d %s %d" % (op[1], op[2], ",".join(map(str, g)) or "-", 1 if op[3] else 0))
@@ -308,10 +393,16 @@ def op_lines(ops):
             lines.append("bus close %d" % op[1])
         elif op[0] == "sleep":
             lines.append("bus timeout")
+        elif op[0] == "raw":
+            lines.append("bus raw %d %s" % (op[1], op[2].hex() or "-"))
+        elif op[0] == "preauth":
+            lines.append("bus nop")
     return lines
 
 
 def model_run(ops, policy=SESSION, limits=None):
+    limits = dict(limits or {})
+    limits.setdefault("maxmsg", 32 * 1024 * 1024)      # bus/config-parser.c: the bus's own default for max_message_size
     lines = ["bus reset " + " ".join("%s=%d" % kv for kv in (limits or {}).items() if kv[0] != "reply_timeout")] + policy.to_model() + op_lines(ops)
     outs = script.run_model("\n".join(lines) + "\n")[0]
     pre = 1 + len(policy.rules)
@@ -328,6 +419,9 @@ def opaque_match(model_line, impl_line):
     return (" t=2 " in " " + impl_line) and (" rs=%s " % rs in impl_line) and (" sender=" + BUS_HEX in impl_line)
 
 
+LAST_RUN = {}
+
+
 def run_impl(ops, policy=SESSION, limits=None, extra=""):
     """returns (steps, died, unique): steps = [({cid: [raw]}, closed set)] for the ops processed"""
     run = ImplRun(policy, limits, extra)
@@ -339,6 +433,9 @@ def run_impl(ops, policy=SESSION, limits=None, extra=""):
             except DaemonDied as e:
                 died = str(e)[-3000:]
                 break
+            except DaemonStalled as e:
+                died = "STALLED: " + str(e)[-3000:]
+                break
             except (OSError, InfraError) as e:
                 t0 = time.time()
                 while run.d.alive() and time.time() - t0 < 20:
@@ -347,6 +444,8 @@ def run_impl(ops, policy=SESSION, limits=None, extra=""):
                     raise
                 died = run.d.stderr()[-3000:]
                 break
+        LAST_RUN["max_latency"] = run.max_latency
+        LAST_RUN["dirty"] = set(run.dirty)
         return steps, died, dict(run.unique)
     finally:
         run.stop()
@@ -368,10 +467,15 @@ def compare(ops, policy=SESSION, limits=None, extra="", impl=None):
     model = model_run(ops, policy, limits)
     steps, died, _ = impl if impl is not None else run_impl(ops, policy, limits, extra)
     isteps = dump_steps(steps)
+    dirty = set()
     for i, (iper, newly) in enumerate(isteps):
         op = ops[i]
         mper, mclosed, _ = model[i]
+        if op[0] == "raw" and not (len(op) > 3 and op[3] and op[1] not in dirty):
+            dirty.add(op[1])
         for cid in sorted(set(iper) | set(mper)):
+            if cid in dirty:
+                continue      # what a client that writes raw bytes still receives is not compared (it is never synchronised with)
             a, b = iper.get(cid, []), mper.get(cid, [])
             if op[0] == "send" and cid == op[1] and b"BecomeMonitor" in op[2]:
                 # the model keeps ordinary deliveries and monitor copies in two lists; in the one step in
@@ -406,6 +510,10 @@ def impl_trace(ops, policy=SESSION, limits=None, extra=""):
 def show_op(op):
     if op[0] == "send":
         return "send %d %s" % (op[1], op[2].hex())
+    if op[0] == "raw":
+        return "raw %d %s%s" % (op[1], op[2].hex() or "-", " whole" if len(op) > 3 and op[3] else "")
+    if op[0] == "preauth":
+        return "preauth %d %s %d" % (op[1], op[2].hex() or "-", 1 if op[3] else 0)
     return " ".join(str(x) for x in op)
 
 
@@ -417,4 +525,8 @@ def parse_op(s):
         return ("connect", int(t[1]), int(t[2]), t[3] in ("True", "1"))
     if t[0] == "sleep":
         return ("sleep",)
+    if t[0] == "raw":
+        return ("raw", int(t[1]), b"" if t[2] == "-" else bytes.fromhex(t[2]), len(t) > 3 and t[3] == "whole")
+    if t[0] == "preauth":
+        return ("preauth", int(t[1]), b"" if t[2] == "-" else bytes.fromhex(t[2]), t[3] == "1")
     return ("close", int(t[1]))
